@@ -854,7 +854,11 @@ func (e *Exec) obligation(cond *Term, kind, what, site string) {
 	} else {
 		e.s.Push()
 		e.s.Assert(Not(cond))
+		tq := time.Now()
 		r = e.s.Check()
+		if d := time.Since(tq); d > 2*time.Second && e.verbose {
+			fmt.Fprintf(os.Stderr, "  SLOW obligation (%.1fs, %s) %s @ %s: %s\n", d.Seconds(), r, what, site, cond.str(7))
+		}
 		if r == "sat" {
 			e.record(kind, what, site)
 		} else if r == "unknown" {
